@@ -7,6 +7,16 @@
 //! orientation, position of the equation inside the conjunction, shadowed / repeated / re-bound
 //! binders, equalities whose sides share variables (`X = t(X)`), mixed-sort equalities, duplicated
 //! conjuncts, fresh-name candidates (`I1`, `J1`, ...) already taken, and chains.
+//!
+//! *Chains.*  Every place where a rule expects "an equation" (`equality_comparison`: exactly one
+//! guard, `=`) also receives comparisons with 2-3 guards built around that equation
+//! (`equation_or_chain`): all-`=` chains whose first link is the equation (`X = t = u`,
+//! `X = t = u = w`), mixed chains (`X = t < u`), chains where a later link is the equation
+//! (`u <= X = t`), chains that repeat a term (`X = t = X`, `X = t = t`).  The rules read only
+//! `term` and `guards[0]` of a comparison, so a rule that accepts such a chain as an equation drops
+//! or rewrites the other links.  `redex_ste` has a *protected* variant (integer / symbol sorted
+//! block variables equated with a general term) on which `substitute_defined_variables` cannot
+//! consume the equations before `simplify_transitive_equality` sees them under a strategy.
 use crate::{generate as g, rng::Rng};
 use anthem::{
     convenience::{apply::Apply as _, compose::Compose as _},
@@ -102,7 +112,7 @@ pub fn cfg(rng: &mut Rng) -> g::Cfg {
         num_lo: -1,
         num_hi: 2,
         use_fconsts: rng.chance(15),
-        max_guards: 2,
+        max_guards: 3,
         ..g::Cfg::default()
     }
 }
@@ -123,8 +133,55 @@ fn eq(l: G, r: G) -> F {
         guards: vec![fol::Guard { relation: fol::Relation::Equal, term: r }],
     }))
 }
-fn eq_any_orientation(rng: &mut Rng, l: G, r: G) -> F {
-    if rng.chance(50) { eq(l, r) } else { eq(r, l) }
+fn cmp(term: G, guards: Vec<(fol::Relation, G)>) -> F {
+    F::AtomicFormula(fol::AtomicFormula::Comparison(fol::Comparison {
+        term,
+        guards: guards.into_iter().map(|(relation, term)| fol::Guard { relation, term }).collect(),
+    }))
+}
+/// percentage of "equations" of the redex templates that are chains of 2-3 guards
+pub const CHAIN_PCT: usize = 22;
+/// a further term of a chain: a general variable (free most of the time: the assignment of the
+/// semantic check then makes the extra link true or false independently of the equation), one of the
+/// terms of the equation again (`X = t = X`), or any term
+fn chain_extra(rng: &mut Rng, c: &g::Cfg, of: &[G]) -> G {
+    match rng.weighted(&[4, 2, 4]) {
+        0 => G::Variable(rng.pick(&c.var_names).to_string()),
+        1 => rng.pick(of).clone(),
+        _ => g::gterm(rng, c, 1),
+    }
+}
+fn non_equal_relation(rng: &mut Rng) -> fol::Relation {
+    use fol::Relation as R;
+    *rng.pick(&[R::NotEqual, R::Less, R::LessEqual, R::Greater, R::GreaterEqual])
+}
+/// the equation `l = r` (either orientation) as the rules expect it, or (`pct` %) a chain of 2-3
+/// guards that contains it as its first or as a later link
+fn equation_or_chain_pct(rng: &mut Rng, c: &g::Cfg, l: G, r: G, pct: usize) -> F {
+    use fol::Relation::Equal;
+    let (l, r) = if rng.chance(50) { (l, r) } else { (r, l) };
+    if !rng.chance(pct) {
+        return eq(l, r);
+    }
+    let of = [l.clone(), r.clone()];
+    let u = chain_extra(rng, c, &of);
+    let w = chain_extra(rng, c, &of);
+    let any = if rng.chance(40) { Equal } else { g::relation(rng) };
+    match rng.weighted(&[5, 2, 3, 3, 1, 1, 1]) {
+        // all-`=` chains, the equation first
+        0 => cmp(l, vec![(Equal, r), (Equal, u)]),
+        1 => cmp(l, vec![(Equal, r), (Equal, u), (Equal, w)]),
+        // mixed chain, the equation first
+        2 => cmp(l, vec![(Equal, r), (non_equal_relation(rng), u)]),
+        // a later link is the equation
+        3 => cmp(u, vec![(any, l), (Equal, r)]),
+        4 => cmp(u, vec![(any, l), (Equal, r), (g::relation(rng), w)]),
+        5 => cmp(l, vec![(Equal, r), (g::relation(rng), u), (g::relation(rng), w)]),
+        _ => cmp(u, vec![(g::relation(rng), w), (any, l), (Equal, r)]),
+    }
+}
+fn equation_or_chain(rng: &mut Rng, c: &g::Cfg, l: G, r: G) -> F {
+    equation_or_chain_pct(rng, c, l, r, CHAIN_PCT)
 }
 fn bin(c: fol::BinaryConnective, l: F, r: F) -> F {
     F::BinaryFormula { connective: c, lhs: l.into(), rhs: r.into() }
@@ -212,10 +269,13 @@ fn uses(rng: &mut Rng, c: &g::Cfg, vs: &[&fol::Variable]) -> F {
     }
     if rng.chance(25) && terms.len() == 2 {
         let r = g::relation(rng);
-        return F::AtomicFormula(fol::AtomicFormula::Comparison(fol::Comparison {
-            term: terms[0].clone(),
-            guards: vec![fol::Guard { relation: r, term: terms[1].clone() }],
-        }));
+        let mut guards = vec![(r, terms[1].clone())];
+        if rng.chance(30) {
+            // a chain that mentions the variables
+            let u = chain_extra(rng, c, &terms);
+            guards.push((g::relation(rng), u));
+        }
+        return cmp(terms[0].clone(), guards);
     }
     let a = F::AtomicFormula(fol::AtomicFormula::Atom(fol::Atom {
         predicate_symbol: rng.pick(&c.preds).to_string(),
@@ -273,30 +333,7 @@ fn redex_sdv(rng: &mut Rng, c: &g::Cfg, depth: usize) -> F {
         } else {
             term_for(rng, c, &x)
         };
-        let e = if rng.chance(12) {
-            // the equation is one link of a chain
-            let extra = g::gterm(rng, c, 1);
-            let r = g::relation(rng);
-            F::AtomicFormula(fol::AtomicFormula::Comparison(if rng.chance(50) {
-                fol::Comparison {
-                    term: extra,
-                    guards: vec![
-                        fol::Guard { relation: r, term: var_term(&x) },
-                        fol::Guard { relation: fol::Relation::Equal, term: t },
-                    ],
-                }
-            } else {
-                fol::Comparison {
-                    term: var_term(&x),
-                    guards: vec![
-                        fol::Guard { relation: fol::Relation::Equal, term: t },
-                        fol::Guard { relation: r, term: extra },
-                    ],
-                }
-            }))
-        } else {
-            eq_any_orientation(rng, var_term(&x), t)
-        };
+        let e = equation_or_chain(rng, c, var_term(&x), t);
         parts.push(e);
         if rng.chance(80) {
             parts.push(uses(rng, c, &[&x]));
@@ -328,7 +365,7 @@ fn redex_rqd(rng: &mut Rng, c: &g::Cfg, depth: usize) -> F {
     let iname = rng.pick(&c.var_names).to_string();
     let z = var(&zname, if rng.chance(88) { Sort::General } else { g::sort(rng, c) });
     let i = var(&iname, if rng.chance(88) { Sort::Integer } else { g::sort(rng, c) });
-    let equation = eq_any_orientation(rng, var_term(&i), var_term(&z));
+    let equation = equation_or_chain(rng, c, var_term(&i), var_term(&z));
     // inner block
     let mut inner_vs = vec![i.clone()];
     if rng.chance(40) {
@@ -351,7 +388,7 @@ fn redex_rqd(rng: &mut Rng, c: &g::Cfg, depth: usize) -> F {
     if rng.chance(15) {
         // a second equation that also matches (which one wins?)
         let j = rng.pick(&inner_vs).clone();
-        inner_parts.push(eq_any_orientation(rng, var_term(&j), var_term(&z)));
+        inner_parts.push(equation_or_chain(rng, c, var_term(&j), var_term(&z)));
     }
     let inner_body = if rng.chance(8) {
         bin(fol::BinaryConnective::Disjunction, conj_shuffled(rng, inner_parts), filler(rng, c, 0))
@@ -414,17 +451,46 @@ fn redex_eqs(rng: &mut Rng, c: &g::Cfg, depth: usize) -> F {
 
 /// `exists X Y.. (X = t and Y = t and F)`
 fn redex_ste(rng: &mut Rng, c: &g::Cfg, depth: usize) -> F {
-    let x = g::variable(rng, c);
-    let y = if rng.chance(12) { x.clone() } else { g::variable(rng, c) };
-    let t = match rng.weighted(&[5, 2, 2, 1]) {
-        0 => term_for(rng, c, &x),
-        1 => var_term(&x), // X = X
-        2 => var_term(&y),
-        _ => g::gterm(rng, c, 1),
+    // protected variant: integer / symbol sorted block variables equated with a *general* term
+    // (a general variable, free most of the time): `find_definition` accepts `I$i = t` only for an
+    // integer term `t`, so substitute_defined_variables leaves the pair to this rule when the
+    // portfolio is composed (shallow: at the root; recursive / fixpoint: at the quantifier node)
+    let protected = rng.chance(35);
+    let (x, y, t) = if protected {
+        let s = if rng.chance(70) { Sort::Integer } else { Sort::Symbol };
+        let xn: &str = *rng.pick(&c.var_names);
+        let x = var(xn, s);
+        let y = if rng.chance(10) {
+            x.clone()
+        } else {
+            let yn: &str = *rng.pick(&c.var_names);
+            let ys = if rng.chance(85) { s } else { g::sort(rng, c) };
+            var(yn, ys)
+        };
+        let t = match rng.weighted(&[8, 1, 1]) {
+            0 => G::Variable(rng.pick(&c.var_names).to_string()),
+            1 => G::Supremum,
+            _ => G::Infimum,
+        };
+        (x, y, t)
+    } else {
+        let x = g::variable(rng, c);
+        let y = if rng.chance(12) { x.clone() } else { g::variable(rng, c) };
+        let t = match rng.weighted(&[5, 2, 2, 1]) {
+            0 => term_for(rng, c, &x),
+            1 => var_term(&x), // X = X
+            2 => var_term(&y),
+            _ => g::gterm(rng, c, 1),
+        };
+        (x, y, t)
     };
+    // in the protected variant chains are more frequent, and at most one of the two equations is a
+    // chain most of the time (the other one must be accepted as an equation for the rule to fire)
+    let pct = if protected { 36 } else { CHAIN_PCT };
+    let first_chain = rng.chance(50);
     let mut parts = vec![
-        eq_any_orientation(rng, var_term(&x), t.clone()),
-        eq_any_orientation(rng, var_term(&y), t.clone()),
+        equation_or_chain_pct(rng, c, var_term(&x), t.clone(), if first_chain { pct } else { pct / 4 }),
+        equation_or_chain_pct(rng, c, var_term(&y), t.clone(), if first_chain { pct / 4 } else { pct }),
     ];
     if rng.chance(85) {
         parts.push(uses(rng, c, &[&x, &y]));
@@ -440,7 +506,7 @@ fn redex_ste(rng: &mut Rng, c: &g::Cfg, depth: usize) -> F {
     if rng.chance(10) {
         // a third variable equal to the same term
         let z = g::variable(rng, c);
-        parts.push(eq_any_orientation(rng, var_term(&z), t));
+        parts.push(equation_or_chain(rng, c, var_term(&z), t));
     }
     let mut vs = vec![];
     if rng.chance(92) {
@@ -524,4 +590,61 @@ pub fn strategy(rng: &mut Rng) -> Strategy {
         1 => Strategy::Recursive,
         _ => Strategy::Fixpoint,
     }
+}
+
+// ------------------------------------------------------------------ trees outside the parser's image
+
+/// the comparisons of `f` in traversal order, mutably
+fn comparisons_mut<'a>(f: &'a mut F, out: &mut Vec<&'a mut fol::Comparison>) {
+    match f {
+        F::AtomicFormula(fol::AtomicFormula::Comparison(c)) => out.push(c),
+        F::AtomicFormula(_) => {}
+        F::UnaryFormula { formula, .. } => comparisons_mut(formula, out),
+        F::BinaryFormula { lhs, rhs, .. } => {
+            comparisons_mut(lhs, out);
+            comparisons_mut(rhs, out);
+        }
+        F::QuantifiedFormula { formula, .. } => comparisons_mut(formula, out),
+    }
+}
+fn binders_mut<'a>(f: &'a mut F, out: &mut Vec<&'a mut fol::Variable>) {
+    match f {
+        F::AtomicFormula(_) => {}
+        F::UnaryFormula { formula, .. } => binders_mut(formula, out),
+        F::BinaryFormula { lhs, rhs, .. } => {
+            binders_mut(lhs, out);
+            binders_mut(rhs, out);
+        }
+        F::QuantifiedFormula { quantification, formula } => {
+            out.extend(quantification.variables.iter_mut());
+            binders_mut(formula, out);
+        }
+    }
+}
+
+/// A redex-biased formula damaged so that it is no longer a tree the parser can produce: one
+/// comparison loses all its guards (`guards[0]` panics in `equality_comparison` /
+/// `transitive_equality`), or one bound variable gets the empty name (`chars().next().unwrap()` in
+/// `replacement_helper`).  These trees live in their own op (`sc_outside_parser`): a mutant that
+/// merely stops panicking on them must not be reported in place of a disagreement on a real formula.
+pub fn formula_outside_parser(rng: &mut Rng, rule: Option<Rule>) -> F {
+    let c = cfg(rng);
+    let depth = rng.below(2);
+    let mut f = redex(rng, &c, depth, rule);
+    if rng.chance(75) {
+        let mut cs = vec![];
+        comparisons_mut(&mut f, &mut cs);
+        if !cs.is_empty() {
+            let k = rng.below(cs.len());
+            cs[k].guards.clear();
+            return f;
+        }
+    }
+    let mut vs = vec![];
+    binders_mut(&mut f, &mut vs);
+    if !vs.is_empty() {
+        let k = rng.below(vs.len());
+        vs[k].name = String::new();
+    }
+    f
 }
